@@ -21,6 +21,8 @@ import LexVerif.Model.Ops.WriteFloat
 import LexVerif.Props.C09
 import LexVerif.Props.C14
 import LexVerif.Props.C17
+import LexVerif.Props.C08Decimal
+import LexVerif.Props.C08Parser
 -- float-writer digit generators and power-of-two writers (dbox)
 import LexVerif.Model.Dragonbox
 import LexVerif.Model.Grisu
@@ -29,6 +31,8 @@ import LexVerif.Model.Ops.WriteAlgos
 -- string→float algorithm models (fast path, Eisel–Lemire, Bellerophon, power-of-two) and their op handlers
 import LexVerif.Model.Ops.ParseAlgos
 import LexVerif.Model.WriteRadixInt
+-- API-level pipeline model (fast path → moderate path → slow path) and its op handler `apf`
+import LexVerif.Model.Ops.ParseFloatAlgo
 -- big-integer slow path (slow.rs / bigint.rs): models, op handler, theorems
 import LexVerif.Model.Ops.Slow
 import LexVerif.Props.C01Slow
